@@ -376,7 +376,7 @@ def r5(ctx):
                     tt, ft = switch_targets_bool(t)
                     gi = b.dominates(tt, bi)
         vs = backslice(b, rvalue_operands(s['rv']))
-        ctx.check(ge and gi and vs.has_call(r'GroupConfig::(input_paths|root_paths)$'), rule, P + '|isolated_roots', b.where(s['line']), 'isolated_roots defaulted from the header paths only when empty and the header had --isolate', 'isolated_roots inheritance is not guarded by is_empty() && header.isolate')
+        ctx.check(ge and gi and vs.has_call(r'GroupConfig::(input_paths\w*|root_paths)$'), rule, P + '|isolated_roots', b.where(s['line']), 'isolated_roots defaulted from the header paths only when empty and the header had --isolate', 'isolated_roots inheritance is not guarded by is_empty() && header.isolate')
     gc = bn.body('get_command_config')
     if gc is None:
         ctx.missing(rule, 'fn get_command_config (binary)')
